@@ -573,6 +573,16 @@ static Token *subst(Token *tok, MacroArg *args, bool is_objlike) {
       if (tok->next->kind == TK_EOF)
         error_tok(tok, "'##' cannot appear at end of macro expansion");
 
+      // The right operand may be a stringized parameter.
+      if (!is_objlike && equal(tok->next, "#")) {
+        MacroArg *arg = find_arg(args, tok->next->next);
+        if (!arg)
+          error_tok(tok->next->next, "'#' is not followed by a macro parameter");
+        *cur = *paste(cur, stringize(tok->next, arg->tok));
+        tok = tok->next->next->next;
+        continue;
+      }
+
       MacroArg *arg = find_arg(args, tok->next);
       if (arg) {
         if (arg->tok->kind != TK_EOF) {
@@ -597,6 +607,12 @@ static Token *subst(Token *tok, MacroArg *args, bool is_objlike) {
         error_tok(tok->next, "'##' cannot appear at end of macro expansion");
 
       if (arg->tok->kind == TK_EOF) {
+        // Placemarker ## #param is the stringized parameter.
+        if (equal(rhs, "#")) {
+          tok = rhs;
+          continue;
+        }
+
         MacroArg *arg2 = find_arg(args, rhs);
         if (arg2) {
           for (Token *t = arg2->tok; t->kind != TK_EOF; t = t->next)
